@@ -114,3 +114,32 @@ Theorem C17_go_string_encoder_is_quote : forall esc s,
   QuoteGen.quote_full_gen esc s = [x22] ++ quote esc s ++ [x22].
 Proof. exact QuoteTie.quote_full_gen_is_quote. Qed.
 Print Assumptions C17_go_string_encoder_is_quote.
+
+(* ---- Compact and Indent themselves: compact / newline / Indent of v5/internal/json/indent.go RE-TRANSLATED on
+   every run (tools/goindent2v -> gen/IndentGen.v: the range loops as structural recursion over the bytes, a
+   range guard on every index and slice expression, the scanner calls as the translated step_fn of
+   gen/ScannerGen.v) and proved equal to the model's compact_go / indent_go for EVERY byte string, every
+   buffer content and every pooled scanner; the guards never fail (IndentTie.v).  With C17_compact /
+   C17_indent above (what compact_go / indent_go compute) this ties the statements to the source. ---- *)
+From JP Require Scan IndentTie.
+From JP.gen Require IndentGen.
+
+Theorem C17_go_compact_is_model : forall esc bs, IndentGen.compact_gen esc bs = Scan.compact_go esc bs.
+Proof. exact IndentTie.compact_gen_is_model. Qed.
+Print Assumptions C17_go_compact_is_model.
+
+Theorem C17_go_indent_is_model : forall indent bs, IndentGen.indent_gen [] indent bs = Scan.indent_go indent bs.
+Proof. exact IndentTie.indent_gen_is_model. Qed.
+Print Assumptions C17_go_indent_is_model.
+
+Theorem C17_go_compact_appends : forall pooled esc src out0,
+  IndentGen.compact_run pooled src esc out0 =
+  match Scan.compact_go esc src with Some o => IndentGen.ROk (out0 ++ o) | None => IndentGen.RErr out0 end.
+Proof. exact IndentTie.compact_run_is_model. Qed.
+Print Assumptions C17_go_compact_appends.
+
+Theorem C17_go_indent_appends : forall pooled ind src out0,
+  IndentGen.indent_run pooled src [] ind out0 =
+  match Scan.indent_go ind src with Some o => IndentGen.ROk (out0 ++ o) | None => IndentGen.RErr out0 end.
+Proof. exact IndentTie.indent_run_is_model. Qed.
+Print Assumptions C17_go_indent_appends.
